@@ -19,6 +19,7 @@ pub fn grammar_full() -> Grammar {
         while_: true,
         repeat: true,
         do_: true,
+        do_ranges: vec![],
         defs: vec!["f", "g"],
         locals: vec!["x"],
         vars: vec!["v"],
@@ -40,6 +41,7 @@ pub fn grammar_repertoire() -> Grammar {
         while_: false,
         repeat: false,
         do_: true,
+        do_ranges: vec![],
         defs: vec!["f"],
         locals: vec!["x"],
         vars: vec!["v"],
@@ -137,6 +139,14 @@ pub fn templates() -> Vec<String> {
         "[ 1 2 3 ] >bitstr open-bitstr 1 bytes drop 1 bytes close-bitstr bitstr-not dup open-bitstr offset remain",
         "[ 1 2 3 ] >bitstr open-bitstr 1 bytes close-bitstr |FF| swap bitstr-append dup open-bitstr offset remain",
         "[ 1 2 3 ] >bitstr open-bitstr 4 bits drop 12 bits close-bitstr |F| bitstr-append dup open-bitstr offset 4 bits",
+        // stores of a value that compares equal to the one already stored but is distinguishable
+        // (tags, position of a slice in its buffer, sign of zero)
+        "5 var m m ^hex ! m m tags",
+        "18 var v u8 ! v v tags",
+        "|07 07| open-bitstr 1 bytes var a 1 bytes ! a a open-bitstr offset",
+        "|07 07| open-bitstr 1 bytes 1 bytes open-bitstr offset swap open-bitstr offset remain",
+        "0.0 var z 0.0 -1.0 * ! z z",
+        "[ 1 ] var w [ 1 ] 2 \"k\" insert-tag ! w w tags",
         // run-time failures at different depths (history ends at the failing step)
         "1 2 3 drop drop drop drop",
         ": k 0 get ; [ ] k",
